@@ -195,9 +195,32 @@ def run(chk, ctx):
             a[3] is Sym('field', 'revision')
     chk.ob('C18.V', 'protocol header encode', okv,
            'marshal -> %s' % T.show(v)[:100], site='pamqp/header.py')
+    # constructors: what the caller passes is what is stored (the frames
+    # above are analysed from the stored attributes)
+    names = ('major_version', 'minor_version', 'revision')
+    ps = [Sym('typed', Sym('param', k), ('int',), (0, 255)) for k in names]
+    attrs, raises = ctx.constructed('header.ProtocolHeader', ps)
+    badn = [k for k, p_ in zip(names, ps)
+            if attrs.get(k) is not p_ and attrs.get(k) is not p_.args[0]]
+    chk.ob('C18.V', 'protocol header constructor', not badn and not raises,
+           'ProtocolHeader(major, minor, revision) stores %s%s' % (
+               ', '.join('%s=%s' % (k, T.show(attrs.get(k))[:50])
+                         for k in names),
+               '; may raise %s' % raises[0].exc if raises else ''),
+           detail={'expected': 'each argument stored unchanged for every '
+                   'octet 0..255'}, site='pamqp/header.py')
+    pv = Sym('typed', Sym('param', 'value'), ('bytes',), None)
+    attrs, raises = ctx.constructed('body.ContentBody', [pv])
+    chk.ob('C18.B', 'body constructor',
+           (attrs.get('value') is pv or attrs.get('value') is pv.args[0])
+           and not raises,
+           'ContentBody(value) stores value=%s%s' % (
+               T.show(attrs.get('value'))[:60],
+               '; may raise %s' % raises[0].exc if raises else ''),
+           site='pamqp/body.py')
     composed(chk, ctx, f, marshal_of)
-    chk.floor('C18.B', 4, 'body facts')
-    chk.floor('C18.V', 2, 'protocol header facts')
+    chk.floor('C18.B', 5, 'body facts')
+    chk.floor('C18.V', 3, 'protocol header facts')
     chk.floor('C18.K', 2, 'heartbeat facts')
     chk.assume('a 131 072-byte body fits in memory')
 
